@@ -72,6 +72,25 @@ def check_interval_view(ctx, A, B, blocks, strand, cs, ce, g, what, cst="+"):
     back = B.lift_over_to_first_ancestor_of_type("chromosome")
     ctx.eq(what + ":lifted_back", rm.loc_positions(back), inside)
     ctx.eq(what + ":chunk_relative_size", B.chunk_relative_size, len(inside))
+    # (b2) the chunk-relative dictionary form lists the chunk-relative blocks
+    try:
+        dr = B.to_dict(chromosome_relative_coordinates=False)
+        key = "exon" if "exon_starts" in dr else "interval"
+        cb = sorted((dn(p), dn(p) + 1) for p in inside)
+        ctx.eq(what + ":chunk_relative_dict_blocks", sorted(rm.posset(list(zip(dr[key + "_starts"], dr[key + "_ends"])))), sorted(p_ for p_, _ in cb))
+        ctx.true(what + ":chunk_relative_dict_starts_before_ends", all(a < b for a, b in zip(dr[key + "_starts"], dr[key + "_ends"])), [dr[key + "_starts"], dr[key + "_ends"]])
+        if dr.get("cds_starts"):
+            ctx.true(what + ":chunk_relative_dict_cds_starts_before_ends", all(a <= b for a, b in zip(dr["cds_starts"], dr["cds_ends"])), [dr["cds_starts"], dr["cds_ends"]])
+            ctx.true(what + ":chunk_relative_dict_cds_inside_exons", rm.posset(list(zip(dr["cds_starts"], dr["cds_ends"]))) <= rm.posset(list(zip(dr[key + "_starts"], dr[key + "_ends"]))),
+                     [dr["cds_starts"], dr["cds_ends"]])
+    except (BioCantorException, ValueError) as e:
+        # refusing is tolerated only when a part that the dictionary must list (the CDS) has no base on the chunk
+        cds_obj = getattr(B, "cds", None)
+        cds_absent = cds_obj is not None and cds_obj.chunk_relative_location.is_empty
+        if cds_absent:
+            ctx.refuse("chunk_relative_dict_refused_cds_outside_chunk")
+        else:
+            ctx.fail(what + ":chunk_relative_dict_raises", repr(e)[:120])
     # (c) sequences
     ctx.eq(what + ":spliced_sequence", str(B.get_spliced_sequence()), rm.seq_image(g, inside, strand))
     lo, hi = min(inside), max(inside) + 1
